@@ -1,4 +1,5 @@
 import Pk.Score
+import Pk.ScoreLaws
 import Pk.Inst
 import Mathlib.Algebra.Order.Field.Rat
 import Mathlib.Tactic.Positivity
@@ -136,6 +137,49 @@ theorem C08_onestep_wiring {κ : Type} (env : κ → RowFn Rat) (p : Pipe Rat κ
       = scoreTrajectory true metric es none 1 p.m (predictFlat env p (shiftUn X))
           (shiftSh (dropInputs p.w.2) X) := by
   simp [scorer]
+
+/-- **alignment of the one-step score.**  For every episode label `l` (any layout of the rows), what the one-step
+scorer compares after stripping `m = min_samples_` rows is: the one-step predictions computed from that episode's own
+samples `0 … n−2`, against that episode's own states `1 … n−1` — row `i` of one against row `i` of the other. -/
+theorem C08_onestep_aligned {κ : Type} (env : κ → RowFn Rat) (p : Pipe Rat κ) (X : FlatMat Rat) (l : Nat)
+    (hG : Guard (Stage.loss p.s + 1) (toPairs p.w.1 (shiftUn X))) :
+    episodeOf l (stripIC p.m (predictFlat env p (shiftUn X)))
+        = (predictEp env p (episodeOf l (toPairs p.w.1 (shiftUn X)))).drop p.m
+    ∧ episodeOf l (toPairs p.w.1 (shiftUn X))
+        = ((episodeOf l X).dropLast).map (fun r => ⟨r.take p.w.1, r.drop p.w.1⟩)
+    ∧ episodeOf l (stripIC p.m (shiftSh (dropInputs p.w.2) X))
+        = (((episodeOf l X).tail).map (dropInputs p.w.2)).drop p.m := by
+  refine ⟨?_, ?_, ?_⟩
+  · unfold stripIC
+    rw [episodeOf_perEpisode _ (by simp), predictFlat_refines env p _ hG l]
+  · unfold toPairs shiftUn
+    rw [episodeOf_map_snd (fun r : List Rat => (⟨r.take p.w.1, r.drop p.w.1⟩ : Row Rat)),
+      episodeOf_perEpisode _ (by simp)]
+  · unfold stripIC shiftSh
+    rw [episodeOf_perEpisode _ (by simp), episodeOf_perEpisode _ (by simp)]
+
+/-- **what the multi-step scorer compares, in general** (finding F-score as a theorem, not only a witness): for every
+episode `l`, the predicted side is the trajectory simulated from that episode's first `m` samples — whose row `i` is
+the state at time `i` of the UNSHIFTED data — while the expected side is `shiftSh`, whose row `i` is the state at time
+`i + 1`.  Row `i` of one is compared with row `i` of the other: the multi-step score is off by one sample. -/
+theorem C08_multistep_compared {κ : Type} (env : κ → RowFn Rat) (p : Pipe Rat κ) (relift : Bool) (X Xp : FlatMat Rat)
+    (hm : 1 ≤ p.m)
+    (hok : predictTrajectory env p relift false false (extractIC p.m (dropInputs p.w.2) (shiftUn X))
+      (some (extractInput (keepInputs p.w.2) (shiftUn X))) = .ok Xp)
+    (l : Nat) (hl : l ∈ labels (shiftUn X)) :
+    episodeOf l (stripIC p.m Xp)
+        = (trajEp env p relift false false ((((episodeOf l X).dropLast).take p.m).map (dropInputs p.w.2))
+            (((episodeOf l X).dropLast).map (keepInputs p.w.2))).drop p.m
+    ∧ episodeOf l (stripIC p.m (shiftSh (dropInputs p.w.2) X))
+        = (((episodeOf l X).tail).map (dropInputs p.w.2)).drop p.m := by
+  constructor
+  · unfold stripIC
+    rw [episodeOf_perEpisode _ (by simp),
+      predictTrajectory_refines env p relift false false (shiftUn X) _ _ hm Xp hok l hl]
+    unfold shiftUn
+    rw [episodeOf_perEpisode _ (by simp)]
+  · unfold stripIC shiftSh
+    rw [episodeOf_perEpisode _ (by simp), episodeOf_perEpisode _ (by simp)]
 
 private def pDemo : Pipe Rat Kind := ⟨.pipe .nil, (1, 0), [[2]]⟩
 private def xDemo : FlatMat Rat := [(0, [1]), (0, [2]), (0, [4]), (0, [8])]
